@@ -56,9 +56,10 @@ ANCHORS = ["glue.core.data_exporters.astropy_table:data_to_astropy_table", "glue
            "glue.core.data_factories.hdf5:hdf5_reader", "glue.core.data_factories.fits:fits_reader",
            "glue.core.data_factories.tables:tabular_data", "glue.core.data_factories.pandas:panda_process"]
 
-N_TABLE = {"quick": 900, "thorough": 12000}
-N_IMAGE = {"quick": 600, "thorough": 8000}
-N_SESSION = {"quick": 120, "thorough": 900}
+N_TABLE = {"quick": 820, "thorough": 12000}
+N_IMAGE = {"quick": 560, "thorough": 8000}
+N_SESSION = {"quick": 144, "thorough": 900}
+N_CHAIN = {"quick": 160, "thorough": 1600}
 
 TABLE_FORMATS = {"csv": ("Comma-separated table", ["csv"]), "fits_table": ("FITS Table", ["fits", "fit"]),
                  "votable": ("VO Table", ["xml", "vot"]), "hdf5": ("HDF5", ["hdf5"])}
@@ -95,7 +96,14 @@ STR_CLASSES = {
 STR_WEIGHTS = ["plain"] * 6 + ["inner_space"] * 3 + ["comma"] * 2 + ["quote"] * 2 + ["na_like"] * 2 + ["non_ascii"]
 
 
+BE_KINDS = {"f64be": ("f64", ">f8"), "f32be": ("f32", ">f4"), "i32be": ("i32", ">i4"), "i16be": ("i16", ">i2")}
+
+
 def gen_column(rng, kind, shape, image=False):
+    if kind in BE_KINDS:
+        # non-native byte order, as carried by anything loaded from a FITS file
+        base, dt = BE_KINDS[kind]
+        return gen_column(rng, base, shape, image).astype(dt)
     n = int(np.prod(shape))
     if kind == "f64":
         vals = [rng.choice(F64_POOL) if rng.random() < 0.5 else round(rng.uniform(-100, 100), rng.choice([0, 2, 6]))
@@ -131,7 +139,8 @@ def gen_column(rng, kind, shape, image=False):
 def kind_family(kind):
     if kind.startswith("str:"):
         return "str"
-    return {"f64": "float", "f32": "float", "i64": "int", "i32": "int", "i16": "int", "u8": "uint", "derived": "float"}[kind]
+    return {"f64": "float", "f32": "float", "i64": "int", "i32": "int", "i16": "int", "u8": "uint", "derived": "float",
+            "f64be": "float", "f32be": "float", "i32be": "int", "i16be": "int"}[kind]
 
 
 def gen_table(rng):
@@ -142,7 +151,9 @@ def gen_table(rng):
     used_str = False
     for j in range(ncol):
         r = rng.random()
-        if r < 0.28:
+        if r < 0.07:
+            kind = rng.choice(sorted(BE_KINDS))
+        elif r < 0.28:
             kind = "f64"
         elif r < 0.36:
             kind = "f32"
@@ -176,7 +187,7 @@ def gen_image(rng):
     names = rng.sample(NAMES, ncol)
     cols = []
     for j in range(ncol):
-        kind = rng.choice(["f64", "f64", "f32", "i64", "i64", "i32", "i16", "u8"])
+        kind = rng.choice(["f64", "f64", "f32", "i64", "i64", "i32", "i16", "u8", "f64be", "f32be", "i32be", "i16be"])
         cols.append([names[j], kind, gen_column(rng, kind, shape, image=True)])
     d = Data(label="img")
     for name, kind, vals in cols:
@@ -270,9 +281,12 @@ def compare_column(kind, orig, got_kind, got, fmt):
         return False, "not_numeric"
     if fam == "float":
         o = orig
-        if orig.dtype == np.float32:
+        if orig.dtype.kind == "f" and orig.dtype.itemsize == 4:
             with np.errstate(all="ignore"):
                 g = np.asarray(got).astype(np.float32)
+        if orig.dtype.kind == "f" and orig.dtype.itemsize == 4:
+            with np.errstate(all="ignore"):
+                o = np.asarray(orig).astype(np.float32)
         ok = bool(np.array_equal(np.asarray(o, dtype=float), np.asarray(g, dtype=float), equal_nan=True))
         return ok, None if ok else "float_value"
     # integers: by exact value
@@ -316,7 +330,7 @@ def describe_cols(cols):
 
 
 # ---------------------------------------------------------------- one trip
-def trip(ctx, scratch, fmt, spec, table, d, dc, cols, shape, skind, stem):
+def trip(ctx, scratch, fmt, spec, table, d, dc, cols, shape, skind, stem, chained=False):
     """Export with one format, load back, compare.  Everything glue does is inside try blocks and classified."""
     rng = ctx.rng
     label, exts = spec
@@ -324,7 +338,7 @@ def trip(ctx, scratch, fmt, spec, table, d, dc, cols, shape, skind, stem):
     if mask is None:
         ctx.count("skipped_no_proper_subset_of_one_element")
         return
-    cell = "%s_%s_%s" % ("table" if table else "image", fmt, skind)
+    cell = "%s%s_%s_%s" % ("chained_" if chained else "", "table" if table else "image", fmt, skind)
     obj = d
     if skind != "data":
         try:
@@ -348,6 +362,8 @@ def trip(ctx, scratch, fmt, spec, table, d, dc, cols, shape, skind, stem):
     rows = "zero" if nrows == 0 else ("one" if nrows == 1 else "many")
     kinds = sorted(set(c[1] for c in selected))
     sig0 = {"format": fmt, "content": "table" if table else "image", "subset": skind, "rows": rows if table else None}
+    if chained:
+        sig0["source"] = "loaded_from_fits"
     detail = lambda **k: dict(columns=describe_cols(selected), shape=list(shape), mask=mask, format=fmt, subset=skind,
                               file=os.path.basename(path), components_selected="components" in kw, **k)
     # ---- write
@@ -498,31 +514,52 @@ def run_image(ctx, i):
         scratch.close()
 
 
+SESSION_FORMATS = [("hdf5", False), ("csv", True), ("gridded_fits", False), ("fits_table", True), ("votable", True),
+                   ("hdf5", True)]
+SESSION_MODS = ["none", "none", "identity_coords", "affine_coords", "derived", "derived_and_coords"]
+
+
+def snapshot(d):
+    """What a dataset shows: main components, derived components, world values, coords class."""
+    main = [(c.label,) + comp_values(d, c) for c in d.main_components]
+    derived = [(c.label, np.asarray(d[c], dtype=float)) for c in d.derived_components]
+    world = [np.asarray(d[c], dtype=float) for c in d.world_component_ids]
+    return {"main": main, "derived": derived, "world": world, "coords": type(d.coords).__name__, "shape": tuple(d.shape)}
+
+
+def same_values(gk, vals, gk2, vals2):
+    if gk != gk2 or vals.shape != vals2.shape:
+        return False
+    if gk == "str":
+        return [text(v) for v in vals.ravel()] == [text(v) for v in vals2.ravel()]
+    return bool(np.array_equal(vals.astype(float), vals2.astype(float), equal_nan=True))
+
+
 def run_session(ctx, i):
-    """Files loaded with load_data, collection saved by reference, restored: same values, same subset mask."""
+    """Files loaded with load_data (factories that leave coords=None and factories that set coords), optionally
+    touched afterwards (coords assigned, derived component added), collection saved by reference, restored: same
+    components, values, derived values, world values and subset mask.  Failing loudly at save time is allowed."""
+    from glue.core.coordinates import AffineCoordinates, IdentityCoordinates
     from glue.core.state import GlueSerializer, GlueUnSerializer
     rng = ctx.rng
     scratch = Scratch()
     try:
         dc = DataCollection()
-        origin = []
+        origin = []       # (format, modification, dataset)
         nfiles = rng.randint(1, 3)
         for k in range(nfiles):
-            table = rng.random() < 0.6
+            fmt, table = SESSION_FORMATS[(i + k) % len(SESSION_FORMATS)] if k == 0 else rng.choice(SESSION_FORMATS)
             d, cols, shape = gen_table(rng) if table else gen_image(rng)
             # keep to content every format reads back (the other trips judge the rest)
-            cols = [c for c in cols if c[1] in ("f64", "i64", "str:plain", "str:inner_space", "derived")]
+            cols = [c for c in cols if c[1] in ("f64", "i64", "f64be", "i32be", "str:plain", "str:inner_space", "derived")]
+            if fmt == "gridded_fits":
+                cols = [c for c in cols if kind_family(c[1]) != "str"]
             if not cols:
-                continue
+                cols = [["flux", "f64", gen_column(rng, "f64", shape)]]
             src = Data(label="src%d" % k)
             for name, kind, vals in cols:
                 src.add_component(vals, name)
-            fmt = rng.choice(["csv", "fits_table", "votable", "hdf5"] if table else ["gridded_fits", "hdf5"])
             label, exts = (TABLE_FORMATS if table else IMAGE_FORMATS)[fmt]
-            if fmt == "gridded_fits":
-                cols = [c for c in cols if kind_family(c[1]) != "str"]
-                if not cols:
-                    continue
             path = scratch.path("s%d_%d" % (i, k), exts[0])
             try:
                 exporter(label)(path, src)
@@ -530,13 +567,33 @@ def run_session(ctx, i):
             except Exception as e:
                 ctx.count("session_setup_failed_%s_%s" % (fmt, exc_name(e)))
                 continue
+            mod = SESSION_MODS[(i // len(SESSION_FORMATS) + k) % len(SESSION_MODS)] if k == 0 else rng.choice(SESSION_MODS)
             for b in back:
                 dc.append(b)
-                origin.append((fmt, b))
+                origin.append((fmt, mod, b))
         if len(dc) == 0:
             ctx.count("session_cases_without_files")
             return
-        # a subset defined on the first dataset through one of its numeric components
+        # ---- touch the loaded datasets the way a user would before saving
+        for fmt, mod, d in origin:
+            had = d.coords is not None
+            try:
+                if mod in ("identity_coords",):
+                    d.coords = IdentityCoordinates(n_dim=d.ndim)
+                if mod in ("affine_coords", "derived_and_coords"):
+                    m = np.eye(d.ndim + 1)
+                    for a_ in range(d.ndim):
+                        m[a_, a_] = rng.choice([2.0, 0.5, -1.5])
+                        m[a_, d.ndim] = rng.choice([0.0, 1.0, -2.5])
+                    d.coords = AffineCoordinates(m)
+                if mod in ("derived", "derived_and_coords"):
+                    num = [c for c in d.main_components if d.get_kind(c) == "numerical"]
+                    if num:
+                        d.add_component_link(num[0] * 2 + 1, "derived_after_load")
+            except Exception as e:
+                ctx.count("session_modification_failed_%s_%s" % (mod, exc_name(e)))
+                return
+            ctx.count("session_datasets_%s_%s_%s" % (fmt, "factory_coords" if had else "factory_no_coords", mod))
         first = dc[0]
         num = [c for c in first.main_components if first.get_kind(c) == "numerical"]
         thr = None
@@ -545,51 +602,127 @@ def run_session(ctx, i):
             fin = vals[np.isfinite(vals)]
             thr = float(np.median(fin)) if fin.size else 0.0
             dc.new_subset_group(subset_state=num[0] >= thr, label="ref")
-        before = []
-        for d in dc:
-            before.append([(c.label,) + comp_values(d, c) for c in d.main_components])
+        before = [snapshot(d) for d in dc]
         mask_before = np.asarray(first.subsets[0].to_mask()) if num else None
         fmts = sorted(set(o[0] for o in origin))
-        sig0 = {"content": "session_by_reference", "formats": fmts if len(fmts) == 1 else "mixed"}
+        mods = sorted(set(o[1] for o in origin))
+        sig0 = {"content": "session_by_reference", "formats": fmts[0] if len(fmts) == 1 else "mixed",
+                "modified": mods[0] if len(mods) == 1 else "mixed"}
+        hist = [[o[0], o[1]] for o in origin]
         try:
             text_ = GlueSerializer(dc, include_data=False).dumps()
         except Exception as e:
             ctx.count("session_save_failed_%s" % exc_name(e))   # failing loudly at save time: tallied
             return
-        try:
-            dc2 = GlueUnSerializer.loads(text_).object("__main__")
-        except Exception as e:
-            ctx.evaluation(["session", fmts, i], True)
-            ctx.violation(dict(sig0, kind="restore_exception", exc=exc_name(e)), {"error": repr(e)[:300], "formats": [o[0] for o in origin]})
-            return
-        ctx.evaluation(["session", [o[0] for o in origin], [[b[0] for b in x] for x in before]], True)
+        ctx.evaluation(["session", hist, [[m_[0] for m_ in x["main"]] for x in before]], True)
         ctx.count("session_trips")
         for f in fmts:
             ctx.count("session_files_%s" % f)
-        if len(dc2) != len(dc):
-            ctx.violation(dict(sig0, kind="dataset_count"), {"before": len(dc), "after": len(dc2)})
+        try:
+            dc2 = GlueUnSerializer.loads(text_).object("__main__")
+        except Exception as e:
+            ctx.violation(dict(sig0, kind="restore_exception", exc=exc_name(e)), {"error": repr(e)[:300], "history": hist})
             return
-        for (fmt, _), d2, cols_before in zip(origin, dc2, before):
-            names2 = [c.label for c in d2.main_components]
-            if names2 != [c[0] for c in cols_before]:
-                ctx.violation(dict(sig0, kind="component_names", format=fmt), {"before": [c[0] for c in cols_before], "after": names2})
+        if len(dc2) != len(dc):
+            ctx.violation(dict(sig0, kind="dataset_count"), {"before": len(dc), "after": len(dc2), "history": hist})
+            return
+        for (fmt, mod, _), d2, snap in zip(origin, dc2, before):
+            sig = {"content": "session_by_reference", "format": fmt, "modified": mod}
+            try:
+                after = snapshot(d2)
+            except Exception as e:
+                ctx.violation(dict(sig, kind="restored_dataset_unreadable", exc=exc_name(e)), {"error": repr(e)[:300], "history": hist})
                 continue
-            for (name, gk, vals), cid in zip(cols_before, d2.main_components):
-                gk2, vals2 = comp_values(d2, cid)
+            if [m_[0] for m_ in after["main"]] != [m_[0] for m_ in snap["main"]]:
+                ctx.violation(dict(sig, kind="component_names"), {"before": [m_[0] for m_ in snap["main"]],
+                                                                   "after": [m_[0] for m_ in after["main"]], "history": hist})
+                continue
+            for (name, gk, vals), (_, gk2, vals2) in zip(snap["main"], after["main"]):
                 ctx.count("session_columns_compared")
-                same = gk == gk2 and vals.shape == vals2.shape and (
-                    [text(v) for v in vals.ravel()] == [text(v) for v in vals2.ravel()] if gk == "str"
-                    else bool(np.array_equal(vals.astype(float), vals2.astype(float), equal_nan=True)))
-                if not same:
-                    ctx.violation(dict(sig0, kind="value_mismatch", format=fmt, col=gk), {"name": name, "before": vals, "after": vals2})
+                if not same_values(gk, vals, gk2, vals2):
+                    ctx.violation(dict(sig, kind="value_mismatch", col=gk), {"name": name, "before": vals, "after": vals2, "history": hist})
+            if [x[0] for x in after["derived"]] != [x[0] for x in snap["derived"]]:
+                ctx.violation(dict(sig, kind="derived_components"), {"before": [x[0] for x in snap["derived"]],
+                                                                      "after": [x[0] for x in after["derived"]], "history": hist})
+            else:
+                for (name, v1), (_, v2) in zip(snap["derived"], after["derived"]):
+                    ctx.count("session_derived_compared")
+                    if v1.shape != v2.shape or not np.array_equal(v1, v2, equal_nan=True):
+                        ctx.violation(dict(sig, kind="derived_value_mismatch"), {"name": name, "before": v1, "after": v2, "history": hist})
+            if after["coords"] != snap["coords"] or len(after["world"]) != len(snap["world"]):
+                ctx.violation(dict(sig, kind="coords_changed", before=snap["coords"], after=after["coords"]), {"history": hist})
+            else:
+                for ax, (w1, w2) in enumerate(zip(snap["world"], after["world"])):
+                    ctx.count("session_world_axes_compared")
+                    if w1.shape != w2.shape or not np.allclose(w1, w2, rtol=1e-12, atol=1e-12, equal_nan=True):
+                        ctx.violation(dict(sig, kind="world_value_mismatch", coords=snap["coords"]),
+                                      {"axis": ax, "before": w1, "after": w2, "history": hist})
         if num:
             try:
                 mask_after = np.asarray(dc2[0].subsets[0].to_mask())
                 ctx.count("session_subset_masks_compared")
                 if mask_after.shape != mask_before.shape or not np.array_equal(mask_after, mask_before):
-                    ctx.violation(dict(sig0, kind="subset_mask_mismatch"), {"before": mask_before, "after": mask_after, "threshold": thr})
+                    ctx.violation(dict(sig0, kind="subset_mask_mismatch"), {"before": mask_before, "after": mask_after, "threshold": thr, "history": hist})
             except Exception as e:
-                ctx.violation(dict(sig0, kind="subset_mask_exception", exc=exc_name(e)), {"error": repr(e)[:300]})
+                ctx.violation(dict(sig0, kind="subset_mask_exception", exc=exc_name(e)), {"error": repr(e)[:300], "history": hist})
+    finally:
+        scratch.close()
+
+
+CHAIN_KINDS = ["f64", "f64", "f32", "i64", "i32", "i16", "str:plain"]
+
+
+def run_chain(ctx, i):
+    """FITS file -> load with the factory (components now carry FITS's big-endian dtypes) -> export the *loaded*
+    dataset, whole and as a subset, with another exporter -> load -> compare with the original harness columns."""
+    rng = ctx.rng
+    scratch = Scratch()
+    try:
+        table = i % 2 == 0
+        if table:
+            n = rng.choice([2, 3, 4, 6, 8])
+            shape = (n,)
+            kinds = [rng.choice(CHAIN_KINDS) for _ in range(rng.randint(1, 4))]
+        else:
+            shape = tuple(rng.randint(1, 4) for _ in range(rng.choice([2, 2, 3])))
+            kinds = [rng.choice([k for k in CHAIN_KINDS if not k.startswith("str")]) for _ in range(rng.randint(1, 3))]
+        names = rng.sample(NAMES, len(kinds))
+        cols = [[nm, k, gen_column(rng, k, shape, image=not table)] for nm, k in zip(names, kinds)]
+        src = Data(label="chain")
+        for name, kind, vals in cols:
+            src.add_component(vals, name)
+        label, exts = TABLE_FORMATS["fits_table"] if table else IMAGE_FORMATS["gridded_fits"]
+        path = scratch.path("c%d_src" % i, exts[0])
+        try:
+            exporter(label)(path, src)
+            back = as_list(load_data(path))
+        except Exception as e:
+            ctx.count("chain_first_stage_failed_%s" % exc_name(e))
+            return
+        ctx.count("chain_cases_%s" % ("table" if table else "image"))
+        k = 0
+        for b in back:
+            # the loaded components, paired with the harness columns by (upper-cased for gridded FITS) name
+            lcols = []
+            for cid in b.main_components:
+                match = [c for c in cols if (c[0] if table else c[0].upper()) == cid.label]
+                if not match:
+                    continue
+                lcols.append([cid.label, match[0][1], match[0][2]])
+                gk, arr = comp_values(b, cid)
+                if gk == "num" and not arr.dtype.isnative:
+                    ctx.count("chain_components_with_non_native_byte_order")
+            if len(lcols) != len(b.main_components) or not lcols:
+                ctx.count("chain_first_stage_names_differ_skipped")   # judged by the plain trips
+                continue
+            dc = DataCollection([b])
+            targets = ["hdf5", "csv", "votable"] if table else ["hdf5", "gridded_fits"]
+            for skind in ["data", rng.choice(["proper", "full", "single"])]:
+                for fmt in targets:
+                    spec = (TABLE_FORMATS if table else IMAGE_FORMATS)[fmt]
+                    trip(ctx, scratch, fmt, spec, table, b, dc, lcols, shape, skind, "c%d_%d" % (i, k), chained=True)
+                    ctx.count("chain_trips_%s" % fmt)
+                    k += 1
     finally:
         scratch.close()
 
@@ -597,7 +730,7 @@ def run_session(ctx, i):
 def cases(tier, seed):
     import random
     allc = ([["table", i] for i in range(N_TABLE[tier])] + [["image", i] for i in range(N_IMAGE[tier])] +
-            [["session", i] for i in range(N_SESSION[tier])])
+            [["session", i] for i in range(N_SESSION[tier])] + [["chain", i] for i in range(N_CHAIN[tier])])
     random.Random(19).shuffle(allc)
     for c in allc:
         yield c
@@ -610,6 +743,8 @@ def run_case(ctx, case):
         run_image(ctx, case[1])
     elif case[0] == "session":
         run_session(ctx, case[1])
+    elif case[0] == "chain":
+        run_chain(ctx, case[1])
     else:
         raise ValueError(case)
 
@@ -639,6 +774,24 @@ def floors(counters, tier):
             out.append("fewer than 100 %s columns compared" % fam)
     if c("session_trips", 0) < 8:
         out.append("fewer than 8 by-reference session trips")
+    for fmt in ("hdf5", "csv", "votable", "gridded_fits"):
+        if c("chain_trips_%s" % fmt, 0) < 8:
+            out.append("fewer than 8 chained trips (FITS -> load -> %s -> load)" % fmt)
+    if c("chain_components_with_non_native_byte_order", 0) < 20:
+        out.append("fewer than 20 chained components that carried a non-native byte order")
+    mods = {}
+    for k, v in counters.items():
+        if k.startswith("session_datasets_"):
+            key = ("factory_coords" if "_factory_coords_" in k else "factory_no_coords", k.split("coords_", 1)[1])
+            mods[key] = mods.get(key, 0) + v
+    for fc in ("factory_coords", "factory_no_coords"):
+        for m in ("none", "identity_coords", "affine_coords", "derived"):
+            if mods.get((fc, m), 0) < 2:
+                out.append("fewer than 2 by-reference datasets with %s and modification %s" % (fc, m))
+    if c("session_world_axes_compared", 0) < 10:
+        out.append("fewer than 10 world axes compared after a by-reference restore")
+    if c("session_derived_compared", 0) < 5:
+        out.append("fewer than 5 derived components compared after a by-reference restore")
     if c("order_compared_same", 0) + c("order_compared_differs", 0) < 100:
         out.append("fewer than 100 component-order comparisons")
     return out
